@@ -32,6 +32,7 @@ func main() {
 	Register("yaml", runYAML)
 	Register("yamlcase", runYAMLCase)
 	Register("retain", runRetain)
+	Register("longstrings", runLongStrings)
 	Register("concurrent", runConcurrent)
 	Main()
 }
@@ -320,6 +321,9 @@ func run1(code *gojq.Code, in any) any {
 	return v
 }
 
+// marshalOnly: emitLib records gojq.Marshal only (very long values in the quick tier)
+var marshalOnly bool
+
 func emitLib(c *Ctx, v any, rng *Rng, all bool) {
 	orc := oracle(v)
 	sv := sexp(v, rng)
@@ -335,6 +339,9 @@ func emitLib(c *Ctx, v any, rng *Rng, all bool) {
 	}{{"tojson", cToJSON}, {"atjson", cAtJSON}, {"attext", cAtText}, {"tostring", cToString}}
 	if !all {
 		modes = modes[:1]
+	}
+	if marshalOnly {
+		modes = nil
 	}
 	for _, m := range modes {
 		res := run1(m.code, v)
@@ -1083,6 +1090,123 @@ func yamlWitness(v any, ind []string) (any, []string, bool) {
 }
 
 // yamlcase <indent|default> <json>: replays one canonical YAML case on the implementation
+// ---------- long strings ----------
+// Strings longer than the encoders' internal sizes (the 4096-byte granularity of a chunked writer, the 8 KiB flush
+// threshold, 64 KiB), of lengths around every power of two from 2^9 to 2^17, made of ASCII filler with a special
+// token placed so that it straddles / touches every offset 4096*k (8192 and 65536 are among them), the start and
+// the end of the string.  A newline every ~200 bytes keeps the model's pending segment short (the model appends to
+// it byte by byte); the run of plain bytes across each boundary is still there.
+type tokenKind struct {
+	name  string
+	tok   string
+	backs []int // the token starts at boundary - back
+}
+
+var tokenKinds = []tokenKind{
+	{"utf8-2", "\u00e9", []int{1}},
+	{"utf8-3", "\u20ac", []int{1, 2}},
+	{"utf8-4", "\U0001F600", []int{1, 2, 3}},
+	{"u2028", "\u2028", []int{1, 2}},
+	{"esc-nl", "\n", []int{0, 1}},
+	{"esc-quote", "\"", []int{0, 1}},
+	{"esc-1f", "\x1f", []int{0, 1}},
+	{"bad-ff", "\xff", []int{0, 1}},
+	{"bad-trunc3", "\xe2\x82", []int{1, 2}}, // a truncated 3-byte sequence followed by filler
+	{"bad-surrogate", "\xed\xa0\x80", []int{1, 2}},
+}
+
+// longString builds a string of exactly n bytes; pick chooses (kind, back) for boundary number i
+func longString(n int, pick func(i int) (tokenKind, int)) string {
+	b := make([]byte, n)
+	for i := range b {
+		b[i] = byte('a' + i%26)
+		if i%211 == 100 {
+			b[i] = '\n'
+		}
+	}
+	put := func(at int, tok string) {
+		if at < 0 || at+len(tok) > n {
+			return
+		}
+		copy(b[at:], tok)
+	}
+	i := 0
+	k0, b0 := pick(i)
+	put(0, k0.tok) // at the start
+	_ = b0
+	for off := 4096; off < n+4; off += 4096 {
+		i++
+		k, back := pick(i)
+		put(off-back, k.tok)
+	}
+	i++
+	k, _ := pick(i)
+	put(n-len(k.tok), k.tok) // ends exactly at the end
+	return string(b)
+}
+
+func runLongStrings(c *Ctx) {
+	defer retainStats(c)
+	rng := c.Rng
+	type ls struct {
+		s     string
+		modes int // 0: Marshal + CLI compact; 1: + tojson, CLI coloured indent, as key
+	}
+	var strs []ls
+	rot := func(shift int) func(int) (tokenKind, int) {
+		return func(i int) (tokenKind, int) {
+			k := tokenKinds[(i+shift)%len(tokenKinds)]
+			return k, k.backs[(i/len(tokenKinds)+shift)%len(k.backs)]
+		}
+	}
+	for p := 9; p <= 17; p++ {
+		for d := -4; d <= 4; d++ {
+			if c.Tier != "thorough" && p >= 15 && (d < -1 || d > 1) {
+				continue
+			}
+			m := 1
+			if p >= 15 {
+				m = 0
+			}
+			strs = append(strs, ls{longString(1<<p+d, rot(p*9+d+4)), m})
+		}
+	}
+	// every kind and every position separately around the first three boundaries (and all sizes in the thorough tier)
+	sizes := []int{4099, 8195, 12291}
+	if c.Tier == "thorough" {
+		sizes = append(sizes, 16387, 32771, 65539, 131075)
+	}
+	for _, n := range sizes {
+		for _, k := range tokenKinds {
+			for _, back := range k.backs {
+				k, back := k, back
+				strs = append(strs, ls{longString(n, func(int) (tokenKind, int) { return k, back }), 1})
+			}
+		}
+	}
+	for i := 0; i < c.N; i++ {
+		n := 3000 + rng.Intn(14000)
+		sh := rng.Intn(1000)
+		strs = append(strs, ls{longString(n, rot(sh)), 1})
+	}
+	for _, x := range strs {
+		s := x.s
+		marshalOnly = x.modes == 0 && c.Tier != "thorough"
+		emitLib(c, s, rng, false)
+		marshalOnly = false
+		emitCli(c, s, cliOpt{false, -1, true, "default"}, rng)
+		c.Count("long")
+		if x.modes == 1 {
+			emitCli(c, []any{s}, cliOpt{false, 2, false, "default"}, rng)
+			if len(s) <= 20000 {
+				emitCli(c, map[string]any{s: []any{s, 1}}, cliOpt{true, 1, true, "default"}, rng)
+				emitLib(c, map[string]any{s: 1}, rng, false)
+			}
+		}
+	}
+	c.Stats["long_strings"] = len(strs)
+}
+
 // retain: calls of very different result sizes (shorter, longer, much longer than the previous ones) through
 // Marshal, tojson, @json, tostring; every kept result is verified after every call
 func runRetain(c *Ctx) {
